@@ -1,9 +1,15 @@
 import json,subprocess,os,sys
-V="/verif"; suf=sys.argv[1]
+V="/verif"; suf=sys.argv[1]; only=sys.argv[2:]
 wt="/var/tmp/rtest"
 subprocess.run(["git","-C","/repo","worktree","add","--detach","-q",wt,"HEAD"])
+# carry uncommitted contract work of /repo over into the scratch worktree
+d=subprocess.run(["git","-C","/repo","diff","HEAD"],capture_output=True,text=True).stdout
+if d.strip():
+    subprocess.run(["git","-C",wt,"apply"],input=d,text=True)
+    subprocess.run(["git","-C",wt,"add","-A"]); subprocess.run(["git","-C",wt,"commit","-qm","wip"])
 for name in sorted(os.listdir(V+"/seeded")):
     if not name.endswith(suf): continue
+    if only and name.split("-")[0] not in only: continue
     pid=json.load(open(V+"/seeded/%s/meta.json"%name))["property"]
     a=subprocess.run(["git","-C",wt,"apply",V+"/seeded/%s/patch.diff"%name],capture_output=True,text=True)
     if a.returncode: print(name,"NOAPPLY",a.stderr[:100]); continue
